@@ -652,6 +652,12 @@ def _ev_programs(tier):
     add("Cat(x,y)[1:4].eq(v): slice of a Cat target", [Cat(x, y)[1:4].eq(v)], [x, y, v])
     e0, e1, e2, k, v = _sg("e0", 2), _sg("e1", 3, True), _sg("e2", 2), _sg("k", 2), _sg("v", 3, True)
     add("Array([e0,e1,e2])[k].eq(v): k beyond the last index selects the last element", [Array([e0, e1, e2])[k].eq(v)], [e0, e1, e2, k, v])
+    e0, e1, e2, k, v = _sg("e0", 2), _sg("e1", 2), _sg("e2", 2), _sg("k", 2), _sg("v", 2)
+    add("k.eq(k+1); Array([e0,e1,e2])[k].eq(v): the key assigned earlier in the same step - the target is selected by the key's value BEFORE the step (non-blocking assignment, `case (k)` in the emitted text)",
+        [k.eq(k + 1), Array([e0, e1, e2])[k].eq(v)], [e0, e1, e2, k, v])
+    e0, e1, k, v, c = _sg("e0", 2), _sg("e1", 2), _sg("k", 1), _sg("v", 2), _sg("c", 1)
+    add("If(c, k.eq(~k)); Array([e0,e1])[k].eq(v); Array([e0,e1])[k][0].eq(c): key conditionally reassigned before two proxy targets",
+        [If(c, k.eq(~k)), Array([e0, e1])[k].eq(v), Array([e0, e1])[k][0].eq(c)], [e0, e1, k, v, c])
     e0, e1, k, v = _sg("e0", 3), _sg("e1", 3, True), _sg("k", 2), _sg("v", 2)
     add("Array([e0,e1])[k][1:3].eq(v): Array proxy of slices", [Array([e0, e1])[k][1:3].eq(v)], [e0, e1, k, v])
     e0, e1, k, v = _sg("e0", 3), _sg("e1", 3, True), _sg("k", 1), _sg("v", 2, True)
